@@ -71,7 +71,7 @@ def gen_setty(rng, depth=3):
     return ("set", (("int", 1), ("str", "a")))
 
 
-QUOTE_PIECES = ["'", '"', "\\", " ", "\n", "a", "b c", "\u00e9", '"""', "'''", "\t", "{", "#"]
+QUOTE_PIECES = ["'", '"', "\\", " ", "\n", "a", "b c", "\u00e9", '"""', "'''", "\t", "{", "#", "x ,y", "(1 ,2 )", " ]", "[ 3", " }", "\n", "k : v"]
 
 
 def gen_layout_sensitive(rng):
